@@ -8,7 +8,8 @@ import jug.task
 from jugverif import core, lib, loadercheck as L
 
 LEVEL = 'proof'
-THEOREMS = ['Jug.C14.barrier_guard', 'Jug.C14.bvalue_exact', 'Jug.C14.load_prefix', 'Jug.C14.phase_progress', 'Jug.C14.progress_from_clean', 'Jug.C14.check_never_early']
+THEOREMS = ['Jug.C14.barrier_guard', 'Jug.C14.bvalue_exact', 'Jug.C14.load_prefix', 'Jug.C14.phase_progress', 'Jug.C14.progress_from_clean', 'Jug.C14.check_never_early',
+            'Jug.C14.keeps_reloading', 'Jug.C14.completes', 'Jug.C14.done_only_when_open', 'Jug.C14.gaveUp_general', 'Jug.C14.gaveUp_after_idle', 'Jug.C14.loop_passes_le']
 
 
 def prepare(G, scratch, tag):
@@ -71,7 +72,7 @@ def check(run):
     quick = run.tier == 'quick'
     run.rule = ('generated jugfiles with several barrier()/bvalue() calls at random positions whose later shape depends on earlier values (the number of tasks created after `n = bvalue(t)` is the value of t) x store states at load '
                 'time (every prefix-closed and many arbitrary subsets of results present): task list and barrier flag of the real jug.init vs the Lean loader; side-effect markers written by the statement after each barrier; '
-                'values handed out by bvalue; the real reload loop run to completion (single process) and by real concurrent `jug execute` processes on a file store; the real check walk; non-trivial = a load that passes at '
+                'values handed out by bvalue; the real reload loop run to completion (single process) and by real concurrent `jug execute` processes on a file store; the real check walk; the reload loop of one real `jug execute` process driven through scripted passes (progress / idle / end) and compared with Model/Reload.lean; more phases than --nr-wait-cycles; a jugfile that selects its own results location; non-trivial = a load that passes at '
                 'least one barrier and stops at a later one; distinct by (program, store state)')
     run.assumptions = ['bvalue arguments are tasks created earlier in the file; stores are sound (values are the reference values)', 'task functions deterministic']
     run.trusted = ['Lean 4.33.0 kernel', 'axioms propext, Quot.sound', 'harness/jugverif/loadercheck.py']
@@ -174,6 +175,8 @@ def check(run):
         deep_and_reload_family(run, scratch)
         many_phases_family(run, scratch)
         own_store_family(run, scratch)
+        from jugverif import reloadcheck
+        reloadcheck.family(run, drv, scratch, 24 if quick else 200)
         # real concurrent processes
         process_family(run, rng, scratch, 2 if quick else 12)
         if drv is not None and run.corr_disagreements == 0:
